@@ -336,3 +336,16 @@ func (w *World) SenderWindows() (wins []uint32, missing []string) {
 	}
 	return
 }
+
+// StartCallers starts one caller actor per workload (registering the handler scripts).
+func (w *World) StartCallers(t *Tun, wls []Workload) []*verifrt.Thread {
+	var ts []*verifrt.Thread
+	for i := range wls {
+		wl := &wls[i]
+		hs := wl.Handler
+		w.Scripts[hs.ID] = &hs
+		spec := wl.Call
+		ts = append(ts, w.Go("caller:"+spec.ID, true, func() { w.RunCall(t.Conn, &spec) }))
+	}
+	return ts
+}
